@@ -106,6 +106,13 @@ def verify(lib, model, where):
         raise Violation("length", f"{where}: len is {n}, expected {len(model)} for tags {model}")
     if list(map(tuple, items)) != [(name, i) for i, name in enumerate(model)]:
         raise Violation("itemize", f"{where}: itemize() = {items}, expected {[(nm, i) for i, nm in enumerate(model)]}")
+    if isinstance(items, list):
+        # the caller edits the list it was handed; the next listing shows the library's tags all the same
+        items.reverse()
+        items.append(("junk", -1))
+        again = lib.items()
+        if again is items or list(map(tuple, again)) != [(name, i) for i, name in enumerate(model)]:
+            raise Violation("itemize-after-caller-edited-the-result", f"{where}: itemize() = {again} after the caller edited an earlier result")
     for i, name in enumerate(model):
         try:
             got = lib.id_of(name)
@@ -300,13 +307,22 @@ def _small(gk, add, look, unk):
                                   "ops": wone_of(st.lists(wone_of(add, add, add, add, look, unk), min_size=1, max_size=25), sized_lists(wone_of(add, add, add, add, look, unk), 6, 25))})
 
 
-EXHAUSTIVE_DOMAIN = ("every sequence of 1..3 add_tag calls (thorough: 1..4) on one local library over the name set {A, B, NONE, add_tag, "
+EXHAUSTIVE_DOMAIN = ("every name harvested from the live TagLibrary class, an exercised instance and the globals of ECAgent.Tags, offered in chunks of ten to a local library and to the module-level API of a fresh module copy; every sequence of 1..3 add_tag calls (thorough: 1..4) on one local library over the name set {A, B, NONE, add_tag, "
                      "itemize, get_tag_name, __class__, __dict__, _tag_names, _tag_counter, '', 'a b'}, verified after every op and "
                      "once more with verification only at the end")
 
 
 def exhaustive(tier):
     import itertools
+    # every name harvested from the live library / module (its own attributes, lazily created ones, module globals) is offered
+    # once to a local library and once to the module-level API of a freshly loaded module copy, an ordinary tag before and after
+    hostile = hostile_names()
+    for kind in ("none", "fresh-module"):
+        for k in range(0, len(hostile), 10):
+            chunk = hostile[k:k + 10]
+            ops = [{"op": "add", "lib": 0, "name": "FIRST"}] + [{"op": "add", "lib": 0, "name": nm} for nm in chunk] + \
+                  [{"op": "add", "lib": 0, "name": "LAST"}, {"op": "lookup", "lib": 0, "id": 1}, {"op": "unknown", "lib": 0, "n": 0}]
+            yield {"libs": 1, "global": kind, "verify": "every", "ops": ops}
     names = ["A", "B", "NONE", "add_tag", "itemize", "get_tag_name", "__class__", "__dict__", "_tag_names", "_tag_counter", "", "a b"]
     maxlen = 3 if tier == "quick" else 4
     for n in range(1, maxlen + 1):
